@@ -16,6 +16,7 @@ package cose
 // ["Signature1", protected, external_aad, payload] of exactly these operands,
 // r||s is the two halves of the given signature, and the key is the given key.
 //@ func cose.Sign1.Verify
+//@   params s1 key payload additionalData
 //@   props C13 C10(sweep) C01(functional) C04(functional)
 //@   sweep bounds,panic,make,nilmem
 //@   pure
@@ -33,6 +34,7 @@ package cose
 //@   callassert verifyRSA#1: @sig bytes(arg3) == bytes(s1.Signature) && arg4 == alg
 
 //@ func cose.verifyRSA
+//@   params pub hash digest sig alg
 //@   props C13 C10(sweep)
 //@   sweep bounds,panic,make,nilmem
 //@   pure
@@ -43,6 +45,7 @@ package cose
 //@   callassert VerifyPSS#1: @alg alg == -37 || alg == -38 || alg == -39
 
 //@ func cose.Sign1.Sign
+//@   params s1 key payload additionalData opts
 //@   props C13
 //@   sweep bounds,panic,make,nilmem
 //@   callassert Sign#1: @digest bytes(arg2) == digest(happ(hinit(u(sighash(algID))), Enc(tuple("Signature1", body, tuple(additionalData), *sigPayload))))
@@ -50,6 +53,7 @@ package cose
 
 // RFC 8152 8.1: r||s, each left-padded to the byte length of the group order
 //@ func cose.RFC8152Signer.Sign
+//@   params key rand digest _
 //@   props C13
 //@   sweep bounds,panic,make,nilmem
 //@   makelimit 1048576
@@ -64,6 +68,7 @@ package cose
 //@ registry-values cose.sigAlgorithms arg1.bound -7=5,-257=5,-37=5,-35=6,-258=6,-38=6,-36=7,-259=7,-39=7
 //@ spec macro sigregistered(alg) = alg == -7 || alg == -35 || alg == -36 || alg == -257 || alg == -258 || alg == -259 || alg == -37 || alg == -38 || alg == -39
 //@ func cose.SignatureAlgorithm.HashFunc
+//@   params alg
 //@   nopaths
 //@   pure
 //@   requires @registered sigregistered(alg)
@@ -73,6 +78,7 @@ package cose
 // MacOf(alg, key, protected, payload) is DEFINED as the value Digest stores.
 //@ spec func MacOf(U, U, U, U) U
 //@ func cose.Mac0.Digest
+//@   params m0 alg key payload aad
 //@   props C13 C05(functional)
 //@   sweep bounds,panic,make,nilmem
 //@   requires @registered macregistered(alg)
@@ -82,10 +88,12 @@ package cose
 //@   callassert Encode#1: @structure ? u(unwrap(v)) == tuple("MAC0", protected, tuple(aad), *macPayload)
 
 //@ func cose.HeaderMap.Parse
+//@   params hm l v
 //@   nopaths
 //@   modifies v
 
 //@ func cose.SignatureAlgorithmFor
+//@   params key opts
 //@   props C13 C09
 //@   sweep panic,nilmem
 //@   pure
@@ -106,25 +114,30 @@ package cose
 //@ spec macro mackeysize(alg) = ite(alg == 4 || alg == 5 || alg == 14 || alg == 25, 16, 32)
 
 //@ func cose.EncryptAlgorithm.KeySize
+//@   params alg
 //@   nopaths
 //@   pure
 //@   requires @registered encregistered(alg)
 //@   ensures! result == enckeysize(alg)
 //@ func cose.MacAlgorithm.KeySize
+//@   params alg
 //@   nopaths
 //@   pure
 //@   requires @registered macregistered(alg)
 //@   ensures! result == mackeysize(alg)
 //@ func cose.EncryptAlgorithm.SupportsAD
+//@   params alg
 //@   nopaths
 //@   pure
 //@   requires @registered encregistered(alg)
 //@ func cose.EncryptAlgorithm.NewCrypter
+//@   params alg key
 //@   nopaths
 //@   pure
 //@   requires @registered encregistered(alg)
 //@   ensures err == nil ==> result0 != nil
 //@ func cose.MacAlgorithm.NewMac
+//@   params alg key
 //@   nopaths
 //@   pure
 //@   requires @registered macregistered(alg)
@@ -134,6 +147,7 @@ package cose
 // followed by 1..16 bytes each holding the pad size, so that unpad recovers the
 // input for every length (also a block-aligned one) --------------------------------------------
 //@ func cose.pad
+//@   params b blockSize
 //@   props C05 C09 C10(sweep)
 //@   sweep bounds,panic,make,div
 //@   requires @block blockSize == 16
@@ -143,9 +157,24 @@ package cose
 //@   ensures @prefix forall k in 0..len(b): result[k] == b[k]
 
 //@ func cose.unpad
+//@   params b blockSize
 //@   props C05 C09 C10(sweep)
 //@   sweep bounds,panic,make,nilmem,div
 //@   pure
 //@   ensures @strip err == nil ==> len(b) > 0 && int(b[len(b)-1]) >= 1 && int(b[len(b)-1]) <= blockSize && len(result0) == len(b) - int(b[len(b)-1])
 //@   ensures @prefix err == nil ==> forall k in 0..len(result0): result0[k] == b[k]
 //@   ensures @total len(b) > 0 && int(b[len(b)-1]) >= 1 && int(b[len(b)-1]) <= blockSize && int(b[len(b)-1]) <= len(b) ==> err == nil
+
+// the algorithm handed to Encrypt/Decrypt is the session's, a registered one (the
+// registry accessors panic otherwise): stated as precondition, established by the
+// callers from the cipher-suite table
+//@ func cose.Encrypt0.Decrypt
+//@   params e0 alg key aad
+//@   props C05 C10(sweep)
+//@   sweep bounds,panic,make,nilmem,div
+//@   requires @registered encregistered(alg)
+//@ func cose.Encrypt0.Encrypt
+//@   params e0 alg key payload aad
+//@   props C05 C10(sweep)
+//@   sweep bounds,panic,make,nilmem,div
+//@   requires @registered encregistered(alg)
